@@ -426,3 +426,37 @@ Proof.
     apply apply_block_total in E; auto. destruct E as [T1 W1].
     apply IH in H; auto. destruct H as [T2 W2]. split; [congruence|exact W2].
 Qed.
+
+(* ---- where the two anomaly counters can move ------------------------------------------------------------------ *)
+
+(* g_negwd moves only when a negative FinalBalance is written off or a negative
+   penalty amount is credited; g_dupcreate only when a pending create meets an
+   existing validator *)
+Lemma anomaly_withdraw : forall s w s1 w1, withdraw_step s w = (s1, w1) -> 0 <= w_final w ->
+  g_negwd s1 = g_negwd s /\ g_dupcreate s1 = g_dupcreate s.
+Proof.
+  intros s w s1 w1 H Hf. unfold withdraw_step in H.
+  destruct (w_final w <=? 0) eqn:E1; [|destruct ((w_completion w <? s_number s) && (w_finished w =? 0))]; inv H;
+    unfold add_negwd, add_balance; sproj; split; auto.
+  assert (w_final w = 0) by lia. destruct (w_finished w =? 0); lia.
+Qed.
+
+Lemma anomaly_penalty : forall p s typ val amount s', do_penalize p s typ val amount = Ok s' -> 0 <= amount ->
+  g_negwd s' = g_negwd s /\ g_dupcreate s' = g_dupcreate s.
+Proof.
+  intros p s typ val amount s' H Ha. unfold do_penalize in H.
+  destruct (if 0 <? amount then take_penalty p s val amount else Ok (val, amount, s_queue s)) as [[[nv tot] q']|]; [|discriminate].
+  cbn [rbind] in H. inv H.
+  assert (F : forall s0 n o, g_negwd (update_validator s0 n o) = g_negwd s0 /\ g_dupcreate (update_validator s0 n o) = g_dupcreate s0).
+  { intros; unfold update_validator; destruct (stake_equal n o); split; reflexivity. }
+  unfold add_negwd, add_balance; sproj.
+  match goal with |- context [update_validator ?a ?b ?c] => destruct (F a b c) as [-> ->] end. sproj.
+  split; [|reflexivity]. destruct (0 <? amount) eqn:E; lia.
+Qed.
+
+Lemma anomaly_create : forall p s id from c s', take_effect p s (mkPtx id from (ACreate c)) = Ok s' ->
+  get_val s (c_main c) = None -> g_dupcreate s' = g_dupcreate s /\ g_negwd s' = g_negwd s /\ get_val s' (c_main c) = Some (new_validator p c).
+Proof.
+  intros p s id from c s' H Hn. unfold take_effect in H; cbn [pt_act] in H. rewrite Hn in H. inv H.
+  unfold create_validator; sproj. repeat split. unfold get_val; sproj. apply (vget_vset_same (s_vals s) (new_validator p c)).
+Qed.
